@@ -209,6 +209,30 @@ func run(rr *mon.Run) {
 	}
 	r.Observe("tpci_apci_combinations", n)
 	r.DistinctAdd(n)
+	// 2b. first data octet with bits 7..6 set: only its low six bits are carried,
+	// the application control code must not be disturbed (encode only: the
+	// decoded value is the masked one)
+	n = 0
+	for apci := 0; apci < 16; apci++ {
+		for fb := 0; fb < 256; fb++ {
+			r.Eval(1)
+			app := &cemi.AppData{Command: cemi.APCI(apci), Data: []byte{byte(fb), 0x5a}}
+			ld := &cemi.LDataInd{LData: cemi.LData{Control1: 0xbc, Control2: 0xe0, Source: 0x1203, Destination: 0x0a07, Data: app}}
+			want := spec.EncodeCemi(nil, &spec.Cemi{Code: spec.McLDataInd, Ctrl1: 0xbc, Ctrl2: 0xe0, Src: 0x1203, Dst: 0x0a07, TPDU: spec.TPDU{Cmd: uint8(apci), Data: []byte{byte(fb), 0x5a}}})
+			var got []byte
+			if p := mon.Guard(func() { got = make([]byte, cemi.Size(ld)); cemi.Pack(got, ld) }); p != "" {
+				r.Violate("encode.panic", map[string]string{"stratum": "first-octet-high-bits"}, nil, "cemi.Pack panicked: %s", p)
+				continue
+			}
+			if string(got) != string(want) {
+				r.Violate("encode.layout", map[string]string{"stratum": "first-octet-high-bits"}, map[string]interface{}{"apci": apci, "first_data_octet": fb, "library": hex.EncodeToString(got), "layout": hex.EncodeToString(want)},
+					"APCI %d with first data octet %#02x: library bytes %x, layout %x (only the low six bits of the first data octet share the octet with the APCI)", apci, fb, got, want)
+			}
+			n++
+		}
+	}
+	r.DistinctAdd(n)
+	r.Observe("first_octet_high_bit_cases", n)
 	// 3. payload and info lengths
 	n = 0
 	for _, code := range ldataCodes {
